@@ -285,6 +285,39 @@ fn diff_field(a: &Obs, b: &Obs) -> &'static str {
     }
 }
 
+/// Root-cause classes with a precise recogniser (everything else keeps a per-history signature).
+///
+/// `failing-run-replays-cached-warnings`: both runs fail with the same exit status and identical
+/// outputs, every diagnostic of the fresh-cache run is also in the warm run, and the warm run's
+/// extra diagnostics are all warnings. (The pipeline appends the cached warnings of restored files
+/// before the pass that aborts the run; the fresh-cache run aborts before pass 2 produces them.)
+pub fn classify(warm: &Obs, cold: &Obs) -> Option<&'static str> {
+    if warm.panicked || cold.panicked {
+        return None;
+    }
+    if warm.exit == cold.exit && warm.exit != 0 && warm.outputs == cold.outputs && warm.diags != cold.diags {
+        let mut extra = warm.diags.clone();
+        for d in &cold.diags {
+            match extra.iter().position(|x| x == d) {
+                Some(i) => {
+                    extra.remove(i);
+                }
+                None => return None, // the fresh-cache run reports something the warm run lacks
+            }
+        }
+        let has_error = |v: &Vec<String>| v.iter().any(|d| d.starts_with("Error:"));
+        if !extra.is_empty() && extra.iter().all(|d| d.starts_with("Warning:")) && has_error(&cold.diags) {
+            // each extra warning at most once (a duplicated replay is a different defect)
+            let mut e2 = extra.clone();
+            e2.dedup();
+            if e2.len() == extra.len() && extra.iter().all(|d| !cold.diags.contains(d)) {
+                return Some("failing-run-replays-cached-warnings");
+            }
+        }
+    }
+    None
+}
+
 struct TransitionResult {
     successor: Option<(Snap, [u8; 32])>,
     violation: Option<Violation>,
@@ -333,8 +366,12 @@ fn do_transition(sb: &Sandbox, state: &Snap, edits: &[Edit], cmd: &str, hist: &[
             let field = diff_field(&warm, &cold);
             let since_cmd: Vec<String> = edits.iter().map(|e| e.text()).collect();
             let prev_cmd = hist.iter().rev().find(|x| x.starts_with("cmd ")).cloned().unwrap_or_else(|| "cmd -".into());
+            let signature = match classify(&warm, &cold) {
+                Some(class) => format!("C04:{class}"),
+                None => format!("C04:{}:{}:[{}]:after-{}", cmd.replace(' ', "_"), field, since_cmd.join(","), prev_cmd.replace(' ', "_")),
+            };
             violation = Some(Violation {
-                signature: format!("C04:{}:{}:[{}]:after-{}", cmd.replace(' ', "_"), field, since_cmd.join(","), prev_cmd.replace(' ', "_")),
+                signature,
                 what: format!("`veryl {cmd}` with the existing fragment cache differs from the same command on a fresh cache in {field}"),
                 case: json!({"engine":"E3","history": h}),
                 expected: obs_json(&cold),
@@ -456,10 +493,15 @@ pub fn run(ctx: &Ctx) -> Report {
                 nontrivial += 1;
             }
             if let Some(v) = tr.violation {
-                if sig_seen.insert(v.signature.clone()) {
+                // a failing run saves nothing, so the state behind this recognised class is sound to
+                // build on; any other violation ends the branch
+                let benign = v.signature == "C04:failing-run-replays-cached-warnings";
+                if sig_seen.insert(v.signature.clone()) || benign {
                     rep.violation(v);
                 }
-                continue; // do not build on a state reached through a violation
+                if !benign {
+                    continue; // do not build on a state reached through a violation
+                }
             }
             if let Some((snap, key)) = tr.successor {
                 if seen.lock().unwrap().insert(key) {
